@@ -211,6 +211,13 @@ Section Generic.
     cbn. apply wrap_ext. exact IH.
   Qed.
 
+  Lemma below_ext : forall L (k1 k2 : @kont S), (forall r s, k1 r s = k2 r s) ->
+    forall r s, below L k1 r s = below L k2 r s.
+  Proof.
+    intros L k1 k2 Hk r s. destruct L; cbn; try apply Hk.
+    destruct (ctx_mark r); [reflexivity | apply Hk].
+  Qed.
+
   Definition is_short (h : handler) : Prop := hb h = BShortOk \/ hb h = BShortErr.
 
   Lemma wrap_short : forall L h k1 k2, is_short h ->
@@ -322,6 +329,12 @@ Section Rel.
     cbn. apply wrap_rel. exact IH.
   Qed.
 
+  Lemma below_rel : forall L k1 k2, krel k1 k2 -> krel (below L k1) (below L k2).
+  Proof.
+    intros L k1 k2 Hk r s t HR. destruct L; cbn; try exact (Hk r s t HR).
+    destruct (ctx_mark r); [eauto 10 | exact (Hk r s t HR)].
+  Qed.
+
   Variable rd : layer -> S -> clo.
   Variable lst : layer -> T -> list handler.
   Hypothesis rd_lst : forall L s t, R s t -> rd L s = chain_clo (lst L t).
@@ -332,7 +345,7 @@ Section Rel.
     - intros r s t HR. cbn. unfold execute. eauto 10.
     - intros r s t HR. cbn [call_from onion_from].
       rewrite (rd_lst L s t HR), apply_chain.
-      exact (chain_rel L (lst L t) _ _ IH r s t HR).
+      exact (chain_rel L (lst L t) _ _ (below_rel L _ _ IH) r s t HR).
   Qed.
 End Rel.
 
@@ -564,13 +577,32 @@ Lemma call_from_plain : forall (S : Type) (mid : list mop -> S -> option S)
   (rd : layer -> S -> clo) (lst : layer -> list handler) (s : S),
   (forall u, mid [] u = Some u) ->
   (forall L, rd L s = chain_clo (lst L)) -> (forall L, Forall plain (lst L)) ->
-  forall ls r,
+  forall ls r, ctx_mark r = None ->
   call_from mid rd ls r s = (s, onion_trace ls lst r (ROk (r ++ [99%N])), ROk (r ++ [99%N])).
 Proof.
-  intros S mid rd lst s Hnil Hrd Hp ls. induction ls as [|L ls IH]; intros r.
-  - reflexivity.
+  intros S mid rd lst s Hnil Hrd Hp ls. induction ls as [|L ls IH]; intros r Hlive.
+  - cbn. unfold execute, strip_ctx. rewrite Hlive. reflexivity.
   - cbn [call_from onion_trace]. rewrite Hrd, apply_chain.
-    apply chain_plain; [exact Hnil | apply Hp | apply IH | reflexivity].
+    apply chain_plain; [exact Hnil | apply Hp | | reflexivity].
+    destruct L; cbn [below]; try rewrite Hlive; apply IH; exact Hlive.
+Qed.
+
+(* a call whose context is already done: every installed client handler is entered and left
+   once, in order; the transport answers ctx.Err(), which travels back through all of them *)
+Lemma call_from_done : forall (S : Type) (mid : list mop -> S -> option S)
+  (rd : layer -> S -> clo) (lst : layer -> list handler) (s : S),
+  (forall u, mid [] u = Some u) ->
+  (forall L, rd L s = chain_clo (lst L)) -> (forall L, Forall plain (lst L)) ->
+  forall r m, ctx_mark r = Some m ->
+  call_from mid rd layers r s =
+  (s, enters LCI (lst LCI) r ++ (enters LCO (lst LCO) r ++ [] ++ exits LCO (rev (lst LCO)) (RErr m))
+      ++ exits LCI (rev (lst LCI)) (RErr m), RErr m).
+Proof.
+  intros S mid rd lst s Hnil Hrd Hp r m Hdone. unfold layers. cbn [call_from].
+  rewrite (Hrd LCI), apply_chain.
+  apply chain_plain; [exact Hnil | apply Hp | | reflexivity]. cbn [below].
+  rewrite (Hrd LCO), apply_chain.
+  apply chain_plain; [exact Hnil | apply Hp | | reflexivity]. cbn [below]. rewrite Hdone. reflexivity.
 Qed.
 
 Definition pool_plain (pool : list pval) : Prop :=
@@ -582,17 +614,17 @@ Proof.
   eapply Forall_forall; [exact H | apply Hi; exact Hx].
 Qed.
 
-Lemma trace_onion : forall pool, guard pool -> pool_plain pool -> forall ops r,
+Lemma trace_onion : forall pool, guard pool -> pool_plain pool -> forall ops r, ctx_mark r = None ->
   let s := snd (run pool ops sys_init) in
   let t := snd (spec_run pool ops ssys_init) in
   call pool r s = (s, onion_trace layers (fun L => spec_list L t) r (ROk (r ++ [99%N])),
                    ROk (r ++ [99%N])).
 Proof.
-  intros pool [Gi Go] [Pi Po] ops r s t. subst s t.
+  intros pool [Gi Go] [Pi Po] ops r Hlive s t. subst s t.
   destruct (run_refines pool (NoDup_code_inj _ Gi) (NoDup_code_inj _ Go) ops sys_init (inv_init pool))
     as [H1 H2]. change (abs sys_init) with ssys_init in H1. rewrite H1. cbn [snd].
   set (s := snd (run pool ops sys_init)) in *.
-  unfold call. apply call_from_plain.
+  unfold call. apply call_from_plain; [| | | exact Hlive].
   - reflexivity.
   - intros L. rewrite spec_list_abs. apply (inv_sys_coherent pool s H2).
   - intros L. rewrite spec_list_abs.
@@ -622,7 +654,7 @@ Proof.
   intros ls. induction ls as [|L ls IH]; intros lists r u; [reflexivity|].
   destruct lists as [|l lists]; [reflexivity|].
   cbn [map eval_from onion_lists]. rewrite apply_chain.
-  apply chain_ext. intros r' u'. apply IH.
+  apply chain_ext. apply below_ext. intros r' u'. apply IH.
 Qed.
 
 Lemma set_pm_coherent : forall n sd p s, coherent s -> coherent_pm p -> coherent (set_pm n sd p s).
@@ -890,7 +922,7 @@ Proof.
   - intros r s t HR. cbn. unfold execute. destruct HR as [Hc ->]. exists s, s. eexists. eexists.
     split; [reflexivity|]. split; [reflexivity|]. split; [exact Hc|reflexivity].
   - intros r s t HR. cbn [call_from]. destruct HR as [Hc ->].
-    exact (apply_rel_same pool L (read_handler L s) _ IH r s s (conj Hc eq_refl)).
+    exact (apply_rel_same pool L (read_handler L s) _ (below_rel Rcoh L _ _ IH) r s s (conj Hc eq_refl)).
 Qed.
 
 Lemma call_coh : forall pool r s, coh_sys s -> coh_sys (fst (fst (call pool r s))).
@@ -927,4 +959,130 @@ Proof.
   intros pool ops. destruct (run_coh pool ops sys_init) as [H1 H2].
   - repeat split; reflexivity.
   - split; [apply coh_sys_coherent; exact H1 | exact H2].
+Qed.
+
+(* ------------------------------------------------------------------ *)
+(* several mutators on one manager                                      *)
+
+Lemma crun_coherent : forall sched cs cs', coherent (shared cs) -> crun cs sched = Some cs' ->
+  coherent (shared cs').
+Proof.
+  intros sched. induction sched as [|i sched IH]; intros cs cs' Hc H.
+  - injection H as <-. exact Hc.
+  - cbn in H. destruct (cstep cs i) as [cs1|] eqn:E; [|discriminate].
+    apply (IH cs1 cs'); [|exact H]. unfold cstep in E.
+    destruct (nth_error (threads cs) i) as [[[|a r]|c]|]; try discriminate.
+    + destruct (aop_step a (shared cs)) as [s'|] eqn:Ea; [|discriminate]. injection E as <-.
+      cbn. eapply aop_step_coherent; eauto.
+    + destruct (caller_step (shared cs) c); [|discriminate]. injection E as <-. exact Hc.
+Qed.
+
+Lemma pm_step_spec : forall o p, coherent_pm p ->
+  pm_step o p = Some {| handlers := hstep o (handlers p); built := chain_clo (hstep o (handlers p)) |}.
+Proof.
+  intros [hs|hs] p Hc; cbn [pm_step hstep].
+  - apply pm_use_spec.
+  - apply pm_unuse_spec. exact Hc.
+Qed.
+
+Lemma pm_run_spec : forall ops p, coherent_pm p ->
+  exists p', pm_run ops p = Some p' /\ handlers p' = hrun ops (handlers p) /\ coherent_pm p'.
+Proof.
+  intros ops. induction ops as [|o ops IH]; intros p Hc.
+  - exists p. repeat split. exact Hc.
+  - cbn [pm_run]. rewrite (pm_step_spec o p Hc).
+    destruct (IH {| handlers := hstep o (handlers p); built := chain_clo (hstep o (handlers p)) |} eq_refl)
+      as [p' [H1 [H2 H3]]].
+    exists p'. split; [exact H1|]. split; [exact H2 | exact H3].
+Qed.
+
+Lemma filter_filter_comm : forall (A : Type) (f g : A -> bool) l,
+  filter f (filter g l) = filter g (filter f l).
+Proof.
+  intros A f g l. induction l as [|a l IH]; [reflexivity|].
+  cbn. destruct (f a) eqn:Ef, (g a) eqn:Eg; cbn; rewrite ?Ef, ?Eg, IH; reflexivity.
+Qed.
+
+Lemma filter_all : forall (A : Type) (f : A -> bool) l, forallb f l = true -> filter f l = l.
+Proof.
+  intros A f l. induction l as [|a l IH]; intros H; [reflexivity|].
+  cbn in *. apply andb_true_iff in H as [Ha Hl]. rewrite Ha, IH by exact Hl. reflexivity.
+Qed.
+
+Lemma filter_none : forall (A : Type) (f : A -> bool) l, forallb (fun x => negb (f x)) l = true -> filter f l = [].
+Proof.
+  intros A f l. induction l as [|a l IH]; intros H; [reflexivity|].
+  cbn in *. apply andb_true_iff in H as [Ha Hl]. destruct (f a); [discriminate|]. apply IH. exact Hl.
+Qed.
+
+Lemma ptr_matches_other : forall own hs c, forallb (fun h => negb (own (code h))) hs = true ->
+  own c = true -> ptr_matches c hs = false.
+Proof.
+  intros own hs c. induction hs as [|h hs IH]; intros H Hc; [reflexivity|].
+  cbn in *. apply andb_true_iff in H as [Hh Hr].
+  destruct (N.eqb c (code h)) eqn:E; [|apply IH; assumption].
+  apply N.eqb_eq in E. subst c. rewrite Hc in Hh. discriminate.
+Qed.
+
+Definition owned (own : N -> bool) (l : list handler) : list handler := filter (fun h => own (code h)) l.
+
+Lemma hstep_mine : forall own o l, is_mine own o = true -> owned own (hstep o l) = hstep o (owned own l).
+Proof.
+  intros own [hs|hs] l Hm; unfold is_mine in Hm; cbn [pop_handlers] in Hm; cbn [hstep]; unfold owned.
+  - rewrite filter_app. rewrite (filter_all _ _ hs Hm). reflexivity.
+  - apply filter_filter_comm.
+Qed.
+
+Lemma hstep_other : forall own o l, is_other own o = true -> owned own (hstep o l) = owned own l.
+Proof.
+  intros own [hs|hs] l Ho; unfold is_other in Ho; cbn [pop_handlers] in Ho; cbn [hstep]; unfold owned.
+  - rewrite filter_app, (filter_none _ (fun h => own (code h)) hs Ho), app_nil_r. reflexivity.
+  - rewrite filter_filter_comm. apply filter_all. apply forallb_forall. intros x Hx.
+    apply filter_In in Hx as [_ Hx]. rewrite (ptr_matches_other own hs (code x) Ho Hx). reflexivity.
+Qed.
+
+(* the handlers a mutator owns end up exactly as if it had run alone, whatever the other
+   mutators of the same manager (owning other code pointers) did in between *)
+Lemma disjoint_mutators : forall own ops l,
+  Forall (fun o => is_mine own o = true \/ is_other own o = true) ops ->
+  owned own (hrun ops l) = hrun (filter (is_mine own) ops) (owned own l).
+Proof.
+  intros own ops. induction ops as [|o ops IH]; intros l Hf; [reflexivity|].
+  inversion Hf as [|? ? Ho Hf']; subst. unfold hrun in *. cbn [fold_left filter].
+  rewrite (IH _ Hf'). destruct (is_mine own o) eqn:Em.
+  - cbn [fold_left]. rewrite (hstep_mine own o l Em). reflexivity.
+  - destruct Ho as [Ho|Ho]; [congruence|]. rewrite (hstep_other own o l Ho). reflexivity.
+Qed.
+
+Lemma pm_run_disjoint : forall own ops p, coherent_pm p ->
+  Forall (fun o => is_mine own o = true \/ is_other own o = true) ops ->
+  exists p', pm_run ops p = Some p' /\ coherent_pm p' /\
+    owned own (handlers p') = hrun (filter (is_mine own) ops) (owned own (handlers p)).
+Proof.
+  intros own ops p Hc Hf. destruct (pm_run_spec ops p Hc) as [p' [H1 [H2 H3]]].
+  exists p'. split; [exact H1|]. split; [exact H3|]. rewrite H2. apply disjoint_mutators. exact Hf.
+Qed.
+
+(* system level: context already done, pass-through handlers *)
+Lemma trace_done : forall pool, guard pool -> pool_plain pool -> forall ops r m, ctx_mark r = Some m ->
+  let s := snd (run pool ops sys_init) in
+  let t := snd (spec_run pool ops ssys_init) in
+  call pool r s =
+  (s, enters LCI (spec_list LCI t) r ++
+      (enters LCO (spec_list LCO t) r ++ [] ++ exits LCO (rev (spec_list LCO t)) (RErr m)) ++
+      exits LCI (rev (spec_list LCI t)) (RErr m), RErr m).
+Proof.
+  intros pool [Gi Go] [Pi Po] ops r m Hdone s t. subst s t.
+  destruct (run_refines pool (NoDup_code_inj _ Gi) (NoDup_code_inj _ Go) ops sys_init (inv_init pool))
+    as [H1 H2]. change (abs sys_init) with ssys_init in H1. rewrite H1. cbn [snd].
+  set (s := snd (run pool ops sys_init)) in *.
+  unfold call. apply (call_from_done sys (run_mops pool) read_handler (fun L => spec_list L (abs s))).
+  - reflexivity.
+  - intros L. rewrite spec_list_abs. apply (inv_sys_coherent pool s H2).
+  - intros L. rewrite spec_list_abs.
+    destruct H2 as [[_ [_ [Hci Hco]]] [_ [_ [Hsi Hso]]]].
+    destruct L; cbn [layer_pm];
+      [ exact (Forall_incl _ _ _ _ Pi Hci) | exact (Forall_incl _ _ _ _ Po Hco)
+      | exact (Forall_incl _ _ _ _ Po Hso) | exact (Forall_incl _ _ _ _ Pi Hsi) ].
+  - exact Hdone.
 Qed.
